@@ -570,6 +570,284 @@ def gen_csv_text(rng):
     return t
 
 
+
+# ---------------------------------------------------------------- histories of ONE configured codec function
+# Every function of syntax/std_encoding*.go (and stdlib-safe.arrai) that returns a function:
+#   json.encoder json.decoder yaml.encoder yaml.decoder csv.encoder csv.decoder xml.decoder(cfg).decode
+# (proto.decode(descriptor)(name) and xlsx.decodeToRelation(cfg) need binary fixtures and are not in the stream.)
+# A history case obtains ONE function value and applies it to 2-4 documents; the oracle is the result of a fresh
+# function value applied to each document alone, in a separate program (and the Coq model for JSON/YAML encoders).
+
+def _jd(s):
+    return "//encoding.json.decoder((strict: %s))" % ("true" if s else "false")
+
+
+def _je(s):
+    return "//encoding.json.encoder((strict: %s))" % ("true" if s else "false")
+
+
+HIST_FNS = [dict(fn="json.encoder", cls="json", dir="enc", cfg=c, strict=st, again=(_jd(st) if ag else None)) for c, st, ag in (
+    ("()", True, True), ("(strict: false)", False, True), ("(escapeHTML: false)", True, True), ("(escapeHTML: true)", True, True),
+    ("(indent: ' ')", True, True), ("(prefix: '>', indent: '  ')", True, False), ("(strict: false, indent: '\\t')", False, True))] + \
+    [dict(fn="json.decoder", cls="json", dir="dec", cfg=c, strict=st, again=_je(st)) for c, st in (
+        ("()", True), ("(strict: false)", False), ("(strict: true)", True))] + \
+    [dict(fn="yaml.encoder", cls="yaml", dir="enc", cfg=c, strict=st, again="//encoding.yaml.decoder((strict: %s))" % ("true" if st else "false"))
+     for c, st in (("()", True), ("(strict: false)", False), ("(indent: 4)", True), ("(indent: 2, strict: false)", False))] + \
+    [dict(fn="yaml.decoder", cls="yaml", dir="dec", cfg=c, strict=st, again="//encoding.yaml.encoder((strict: %s))" % ("true" if st else "false"))
+     for c, st in (("()", True), ("(strict: false)", False))] + \
+    [dict(fn="csv.encoder", cls="csv", dir="enc", cfg=c, strict=True, again=ag) for c, ag in (
+        ("()", "//encoding.csv.decode"), ("(comma: 59)", "//encoding.csv.decoder((comma: 59))"), ("(crlf: true)", "//encoding.csv.decode"))] + \
+    [dict(fn="csv.decoder", cls="csv", dir="dec", cfg=c, strict=True, again=ag) for c, ag in (
+        ("()", "//encoding.csv.encode"), ("(comma: 59)", "//encoding.csv.encoder((comma: 59))"), ("(trimLeadingSpace: true)", "//encoding.csv.encode"),
+        ("(lazyQuotes: true)", "//encoding.csv.encode"), ("(fieldsPerRecord: -1)", None), ("(comment: 35)", "//encoding.csv.encode"))] + \
+    [dict(fn="xml.decoder", cls="xml", dir="dec", cfg=c, strict=True, again="//encoding.xml.encode") for c in (
+        "()", "(trimSurroundingWhitespace: true)", "(trimSurroundingWhitespace: false)")]
+
+HIST_SHAPES = ["let", "arr", "map", "dotmap", "nested", "reuse"]
+
+_LONG1 = {"name": "first document", "n": [1, 2, 3], "pad": "x" * 70}
+_LONG2 = {"name": "second document, longer than sixty-four bytes", "items": list(range(30)), "t": True}
+# 2-4 documents: same length, shorter-then-longer, longer-then-shorter, >64 bytes and small, identical
+HIST_JSON_SEQS = [
+    [{"k": 1}, {"k": 2}], [{"k": 1}, {"k": 2}, {"k": 3}], [[1], _LONG1], [_LONG1, ["second", None, True]], [_LONG1, 7, _LONG2, "s"],
+    [{"k": 1}, {"k": 1}, {"k": 1}], [_LONG2, _LONG2], ["ab", "cd", "ef", "gh"], [[1, 2, 3], {"a": "<&>"}, [3, 2, 1]],
+    [{"a": {"b": [1.5, None]}}, _LONG1, {"a": {"b": [2.5, None]}}], [1, 2], [True, False, None],
+    [{"v": 2 ** 63}, {"v": -2 ** 63}, [float(2 ** 63 + 2048)]], [9223372036854774784, {"k": [2 ** 53, 1]}]]
+HIST_CSV_SEQS = [
+    [[["a", "b"]], [["c", "d"]]], [[["a", "b"]], [["a", "b"], ["c", "d"], ["e", "f"]]], [[["x" * 40, "y" * 40], ["1", "2"]], [["p", "q"]]],
+    [[["a", "b"]], [["a", "b"]], [["a", "b"]]], [[["k;1", 'q"r'], [" s", "#t"]], [["1", "2"], ["3", "4"]], [["u", "v"]]],
+    [[["a"]], [["bb"]], [["a"], ["c"]], [["dddd"]]]]
+HIST_XML_SEQS = [
+    ['<a x="1"><b>t</b> </a>', '<c/>'], ['<c/>', '<a x="1"><b>t</b> </a>'], ['<r><i>1</i></r>', '<r><i>2</i></r>'],
+    ['<?xml version="1.0"?><root><item id="%d">%s</item></root>' % (i, "v" * 30 * i) for i in (3, 1, 2)], ['<a> x </a>', '<a> x </a>', '<b>  </b>'],
+    ['<doc>' + '<p>para</p>' * 12 + '</doc>', '<e/>', '<doc><p>q</p></doc>', '<e/>']]
+
+
+def hist_doc_ok(d):
+    """documents of histories stay away from the open findings of single calls (empty keys) so that every result is informative"""
+    return not has_empty_key(d) and yaml_text_sig({"codec": "yaml", "doc": d}) is None
+
+
+def gen_hist_docs(rng, cls):
+    n = rng.randrange(2, 5)
+    if cls in ("json", "yaml"):
+        docs = []
+        while len(docs) < n:
+            r = rng.random()
+            d = gen_doc(rng, rng.randrange(0, 4), empty_key_p=0, alpha=ALPHA[:8]) if r < 0.8 else rng.choice([_LONG1, _LONG2, {"k": rng.randrange(9)}])
+            if hist_doc_ok(d):
+                docs.append(d)
+    elif cls == "csv":
+        w = rng.randrange(2, 4)
+        cell = lambda: rng.choice(["a", "b c", "1", "x;y", 'q"r', " l", "#c", "é", "w" * rng.randrange(1, 40), "z,z"])
+        docs = [[[cell() for _ in range(w)] for _ in range(rng.randrange(1, 5))] for _ in range(n)]
+    else:
+        el = lambda k: "<%s%s>%s</%s>" % (k, rng.choice(["", ' id="%d"' % rng.randrange(99)]), rng.choice(["", "t", " t ", "<i/>", "x" * rng.randrange(80)]), k)
+        docs = ["<r>%s</r>" % "".join(el(rng.choice("abc")) for _ in range(rng.randrange(0, 5))) for _ in range(n)]
+    r = rng.random()
+    if r < 0.2:
+        docs.sort(key=lambda d: len(json.dumps(d)))
+    elif r < 0.4:
+        docs.sort(key=lambda d: -len(json.dumps(d)))
+    elif r < 0.55:
+        docs[-1] = docs[0]
+    elif r < 0.65:
+        docs = [docs[0]] * len(docs)
+    return docs
+
+
+def hist_core():
+    out = []
+    seqs = {"json": HIST_JSON_SEQS, "yaml": HIST_JSON_SEQS, "csv": HIST_CSV_SEQS, "xml": HIST_XML_SEQS}
+    k = 0
+    first = set()
+    for f in HIST_FNS:                               # enumerated core, shapes in rotation: every function x every sequence under its
+        ss = seqs[f["cls"]]                          # first configuration, four sequences (in rotation) under each other configuration
+        if f["fn"] in first:
+            ss = [ss[(k + j) % len(ss)] for j in range(4)]
+        first.add(f["fn"])
+        for docs in ss:
+            if f["cls"] == "yaml" and not all(hist_doc_ok(d) for d in docs):
+                docs = [d for d in docs if hist_doc_ok(d)] * 2
+            out.append(dict(f, kind="hist", shape=HIST_SHAPES[k % len(HIST_SHAPES)], docs=docs))
+            k += 1
+    for docs in HIST_JSON_SEQS[:6]:                  # the configuration of the missed change, through every shape
+        for sh in HIST_SHAPES:
+            out.append(dict(HIST_FNS[2], kind="hist", shape=sh, docs=docs))
+    return out
+
+
+def hist_random(rng, n):
+    out = []
+    for _ in range(60 * n):
+        f = rng.choice(HIST_FNS[:16] if rng.random() < 0.75 else HIST_FNS)
+        out.append(dict(f, kind="hist", shape=rng.choice(HIST_SHAPES), docs=gen_hist_docs(rng, f["cls"])))
+    return out
+
+
+def hist_fn_src(c):
+    if c["fn"] == "xml.decoder":
+        return "//encoding.xml.decoder(%s).decode" % c["cfg"]
+    return "//encoding.%s(%s)" % (c["fn"], c["cfg"])
+
+
+def hist_in_model(c, d):
+    return c["cls"] in ("json", "yaml") and cjson(d) is not None
+
+
+def hist_input(c, d):
+    """arr.ai source of the i-th document handed to the function value"""
+    if c["cls"] in ("json", "yaml"):
+        text = src_bytes(doc_text(d).encode("utf-8"))
+        if c["dir"] == "dec":
+            return text
+        if hist_in_model(c, d):
+            return src_rv(rv_of_doc(d, c["strict"]))
+        return "%s(%s)" % (_jd(c["strict"]), text)        # numbers outside the model: the decoder's image of the text
+    if c["cls"] == "csv":
+        if c["dir"] == "enc":
+            return src_matrix(d)
+        comma = ";" if "59" in c["cfg"] else ","
+        return src_bytes("".join(comma.join('"%s"' % f.replace('"', '""') if any(ch in f for ch in ',;"\n #') else f for f in r) + "\n" for r in d).encode("utf-8"))
+    return src_bytes(d.encode("utf-8"))
+
+
+def hist_src(c):
+    """the history program: ONE function value f, applied to every document; all results (and each result passed
+    through the opposite one-shot codec g) reported in one value"""
+    xs = [hist_input(c, d) for d in c["docs"]]
+    g, sh, n = c.get("again"), c["shape"], len(c["docs"])
+    head = "let f = %s; " % hist_fn_src(c)
+    if sh == "let":
+        head += "".join("let r%d = f(%s); " % (i, x) for i, x in enumerate(xs))
+        rs = ["r%d" % i for i in range(n)]
+    elif sh == "reuse":                               # the first document once more at the end; its first result is reported
+        head += "".join("let r%d = f(%s); " % (i, x) for i, x in enumerate(xs)) + "let again = f(%s); " % xs[0]
+        rs = ["r%d" % i for i in range(n)]
+    elif sh == "nested":                              # the function value is applied inside another function, called n times
+        head += "let h = \\x (out: f(x), tag: 1); " + "".join("let a%d = h(%s); " % (i, x) for i, x in enumerate(xs))
+        rs = ["a%d.out" % i for i in range(n)]
+    else:
+        if sh == "arr":
+            head += "let rs = [%s]; " % ", ".join("f(%s)" % x for x in xs)
+        elif sh == "map":
+            head += "let rs = [%s] >> \\x f(x); " % ", ".join(xs)
+        else:
+            head += "let rs = [%s] >> f(.); " % ", ".join(xs)
+        return head + ("(r: rs, d: rs >> \\y %s(y))" % g if g else "(r: rs)")
+    body = "r: [%s]" % ", ".join(rs)
+    if g:
+        body += ", d: [%s]" % ", ".join("%s(%s)" % (g, r) for r in rs)
+    return head + "(" + body + ")"
+
+
+def hist_one_src(c, d):
+    """the one-shot program for one document: a fresh function value, nothing else in the program"""
+    x, g = hist_input(c, d), c.get("again")
+    return ("let r = %s(%s); " % (hist_fn_src(c), x)) + ("(r: r, d: %s(r))" % g if g else "(r: r)")
+
+
+def tup_get(d, name):
+    for n, v in (d or {}).get("t", []):
+        if n == name:
+            return v
+    return None
+
+
+EMPTY_CANON = ("s", ())
+
+
+def arr_items(d):
+    """array dump -> {index: canon(item)} (an index that is missing holds the empty set)"""
+    out = {}
+    for m in (d or {}).get("s", []):
+        t = dict((n, v) for n, v in m.get("t", []))
+        if "@" in t and "@item" in t and "n" in t["@"]:
+            out[int(float(t["@"]["n"]))] = canon(t["@item"])
+    return out
+
+
+def hist_oracle(run, c, obs):
+    """every result of the history equals the result of a fresh function value on that document alone"""
+    h = obs.get("h")
+    ones = [obs.get("o%d" % i) for i in range(len(c["docs"]))]
+    rec = {"case": {x: y for x, y in c.items() if x != "id"}, "program": hist_src(c),
+           "one_shot_programs": [hist_one_src(c, d) for d in c["docs"]],
+           "observed": {"history": {k: v for k, v in (h or {}).items() if k != "val"}, "history_repr": (h or {}).get("repr", "")[:1500],
+                        "one_shot": [(o or {}).get("repr", (o or {}).get("st")) for o in ones]},
+           "oracle": "each result of one configured codec function applied to several documents equals the result of a fresh function "
+                     "value on that document alone (C13_codec_results_independent_of_history)"}
+    if h is None or any(o is None for o in ones) or h.get("st") in ("timeout", "crash") or any(o.get("st") in ("timeout", "crash") for o in ones):
+        return False
+    if h["st"] != "ok" or any(o["st"] != "ok" for o in ones):
+        if h["st"] == "ok" or not any(o["st"] == h["st"] for o in ones):
+            rec["why"] = "the history %s but the one-shot calls %s" % (h["st"], [o["st"] for o in ones])
+            run.classify_failure(None, rec)
+        return True
+    for fld in ("r", "d") if c.get("again") else ("r",):
+        got = arr_items(tup_get(h["val"], fld))
+        for i, o in enumerate(ones):
+            want = canon(tup_get(o["val"], fld))
+            if got.get(i, EMPTY_CANON) != want:
+                rec["why"] = "result %d (%s) of the history differs from the one-shot result for document %d" % (i, fld, i)
+                run.classify_failure(None, rec)
+                return True
+    return True
+
+
+def hist_coq(c, obs):
+    """Coq hcase body for a JSON/YAML encoder history whose documents are all inside the model, else None"""
+    h = obs.get("h")
+    if c["cls"] not in ("json", "yaml") or c["dir"] != "enc" or "prefix" in c["cfg"] or h is None or h.get("st") != "ok":
+        return None
+    if not all(hist_in_model(c, d) for d in c["docs"]):
+        return None
+    r = tup_get(h["val"], "r")
+    items = {}
+    for m in (r or {}).get("s", []):
+        t = dict((n, v) for n, v in m.get("t", []))
+        if "@" in t and "@item" in t:
+            items[int(float(t["@"]["n"]))] = t["@item"]
+    steps = []
+    for i, d in enumerate(c["docs"]):
+        if i not in items:
+            return None
+        o, _ = o_json({"st": "ok", "val": items[i]}, c["cls"])
+        if o is None:
+            return None                               # text the python parser cannot read: the one-shot comparison covers it
+        steps.append("(%s, %s)" % (crv(rv_of_doc(d, c["strict"])), o))
+    return "h_strict := %s; h_steps := [%s]" % (cbool(c["strict"]), "; ".join(steps))
+
+
+# ---------------------------------------------------------------- numbers at the int64 boundary
+B63 = 2 ** 63
+BOUND_NUMS = [B63, float(B63), B63 - 1024, float(B63 + 2048), -B63, float(-B63), -B63 - 2048, -B63 + 1024, B63 - 1, 2 ** 64, float(B63 - 1024), -B63 - 1]
+BOUND_POS = [lambda x: x, lambda x: [x], lambda x: {"k": x}, lambda x: {"o": {"v": x}}, lambda x: [[x], {"k": [x]}], lambda x: [1, x, "s"],
+             lambda x: {"a": x, "b": [x, 0]}]
+
+
+def src_lit(d):
+    """arr.ai literal of the strict decoder image of a document whose numbers may lie outside the model (exact digits)"""
+    if isinstance(d, bool) or d is None or isinstance(d, str):
+        return src_rv(rv_of_doc(d, True))
+    if isinstance(d, (int, float)):
+        z = int(float(d))
+        return "(%d)" % z if z < 0 else "%d" % z
+    if isinstance(d, list):
+        return "(a: [" + ", ".join(src_lit(x) for x in d) + "])" if d else "(a: {})"
+    return "{" + ", ".join("%s: %s" % (src_str([ord(ch) for ch in k]), src_lit(v)) for k, v in sorted(d.items())) + "}"
+
+
+def bound_src(c):
+    e = "//encoding.%s" % c["codec"]
+    return ("let dec = %s.decode; let enc = %s.encode; let v = dec(%s); let lit = %s; "
+            "(same: v = lit, back: dec(enc(lit)) = lit, again: dec(enc(v)) = v)") % (e, e, src_bytes(doc_text(c["doc"]).encode("utf-8")), src_lit(c["doc"]))
+
+
+def is_true_dump(d):
+    return d is not None and len(d.get("s", [])) == 1 and d["s"][0].get("t") == []
+
+
 def gen_cases(rng, tier):
     n = 1 if tier == "quick" else 8
     cases = []
@@ -616,6 +894,15 @@ def gen_cases(rng, tier):
     add({"kind": "impl", "what": "yaml_leading_newline"})
     add({"kind": "impl", "what": "yaml_uint64"})
     add({"kind": "impl", "what": "yaml_merge_key"})
+    # the int64 boundary (2^63, its float64 neighbours, -2^63): top level, in arrays, nested, as object values; both codecs
+    for codec in ("json", "yaml"):
+        for x in BOUND_NUMS:
+            for pos in BOUND_POS:
+                add({"kind": "bound", "codec": codec, "doc": pos(x)})
+                add({"kind": "float_round", "codec": codec, "doc": pos(x)})
+    # histories of one configured codec function: the enumerated core (the random ones come last)
+    for c in hist_core():
+        add(c)
 
     # the empty key next to other keys: decode -> encode -> decode chains and encoder inputs, both codecs and modes
     for i in range(28 * n):
@@ -668,6 +955,8 @@ def gen_cases(rng, tier):
         if rng.random() < 0.4:
             d = {"{||}": d} if rng.random() < 0.6 else {"{||}": d, "a": 1}
         add({"kind": "wire_dec", "doc": d})
+    for c in hist_random(rng, n):
+        add(c)
     if tier == "thorough":
         # exhaustive small scope: every document of depth <= 2 over a small base, both modes
         atoms = [None, True, False, 0, 1.5, "", "a", [], {}]
@@ -723,6 +1012,10 @@ def sources(c):
         return [("a", "c13wire", {"src": src_rv(c["rv"])})]
     if k == "wire_dec":
         return [("a", "c13wiredec", {"doc": doc_text(c["doc"])})]
+    if k == "hist":
+        return [("h", "eval", {"src": hist_src(c)})] + [("o%d" % i, "eval", {"src": hist_one_src(c, d)}) for i, d in enumerate(c["docs"])]
+    if k == "bound":
+        return [("a", "eval", {"src": bound_src(c)})]
     if k == "impl":
         if c["what"] == "yaml_nonstring_key":
             return [("a", "eval", {"src": "//encoding.yaml.decode('1: a')"}), ("b", "eval", {"src": "//encoding.yaml.decode('\"1\": a')"})]
@@ -820,6 +1113,15 @@ def impl_oracle(run, c, obs):
             rec["oracle"] = "decode(encode(decode d)) = decode d on the implementation's own values"
             sig = "q_json_key_unchecked" if has_empty_key(c["doc"]) and run.finding_for("q_json_key_unchecked") else yaml_text_sig(c)
             run.classify_failure(sig, rec)
+        return True, True
+    if k == "bound":
+        if a is None or a.get("st") in ("timeout", "crash"):
+            return False, False
+        good = a.get("st") == "ok" and all(is_true_dump(tup_get(a["val"], f)) for f in ("same", "back", "again"))
+        if not good:
+            rec["program"] = bound_src(c)
+            rec["oracle"] = "decode(text) = the number written; decode(encode(v)) = v (numbers at the int64 boundary)"
+            run.classify_failure(yaml_text_sig(c), rec)
         return True, True
     if k == "bits_rt":
         good = a is not None and a.get("st") == "ok" and a["val"].get("n") is not None and float(a["val"]["n"]) == float(c["n"])
@@ -975,13 +1277,24 @@ def run_cases(run, vh, cases, shard=120):
             rq["id"] = "%d.%s" % (c["id"], slot)
             reqs[cmd].append(rq)
     obs = {c["id"]: {} for c in cases}
+    # the one-shot programs of histories repeat (same function, configuration and document): each distinct one runs once
+    once, same = {}, {}
+    for rq in reqs["eval"]:
+        if rq["id"].split(".")[1].startswith("o"):
+            if rq["src"] in once:
+                same.setdefault(once[rq["src"]], []).append(rq["id"])
+            else:
+                once[rq["src"]] = rq["id"]
+    dup = {x for ids in same.values() for x in ids}
+    reqs["eval"] = [rq for rq in reqs["eval"] if rq["id"] not in dup]
     for cmd, rs in reqs.items():
         if not rs:
             continue
         outs, rc, err = run_harness(vh, cmd, rs)
         for rid, o in outs.items():
-            cid, slot = rid.split(".")
-            obs[int(cid)][slot] = o
+            for rid2 in [rid] + same.get(rid, []):
+                cid, slot = rid2.split(".")
+                obs[int(cid)][slot] = o
     terms = []
     for c in cases:
         t = coq_case(c, obs[c["id"]])
@@ -1005,6 +1318,32 @@ def run_cases(run, vh, cases, shard=120):
                 run.corr_breaks.append({"what": "model evaluation failed (Check/C13Check.v)", "log": se[-1500:]})
                 for cid, _ in chunk:
                     results[cid] = None
+                continue
+            for cid, _ in chunk:
+                results[cid] = 0
+            for cid, code in rep:
+                results[cid] = code
+    hterms = []
+    for c in cases:
+        if c["kind"] == "hist":
+            t = hist_coq(c, obs[c["id"]])
+            if t is not None:
+                hterms.append((c["id"], t))
+    hchunks = [hterms[i:i + 60] for i in range(0, len(hterms), 60)]
+
+    def doh(idx_chunk):
+        idx, chunk = idx_chunk
+        body = ["From Coq Require Import NArith.", "From Arrai Require Import Base.Val Sys.Outcome Sys.Json Sys.Bits Sys.Wire Sys.Csv Sys.Codec Check.C13Check.",
+                "Definition cases : list hcase := ["]
+        body.append(";\n".join("  {| h_id := %d; %s |}" % (cid, t) for cid, t in chunk))
+        body.append("].\nDefinition G : cfg := %s.\nDefinition R := Eval vm_compute in report_hist G cases.\nPrint R." % cfg_term(run))
+        rc2, so, se = coq_eval("c13_hist_%d" % idx, "\n".join(body))
+        return coq_report(so, "R"), se
+
+    with concurrent.futures.ThreadPoolExecutor(max_workers=8) as ex:
+        for (rep, se), chunk in zip(ex.map(doh, enumerate(hchunks)), hchunks):
+            if rep is None:
+                run.corr_breaks.append({"what": "model evaluation failed (Check/C13Check.v report_hist)", "log": se[-1500:]})
                 continue
             for cid, _ in chunk:
                 results[cid] = 0
@@ -1053,10 +1392,43 @@ def main(tier, seed, replay=None):
                 cases.append(c)
     obs, results = run_cases(run, vh, cases)
     hist, skipped, noted, dist, seen = {}, 0, 0, 0, set()
+    hcov = {"by_function": {}, "by_shape": {}, "by_length": {}, "history_is_an_error": 0, "also_compared_with_the_model": 0}
     for c in cases:
         k = c["kind"]
         hist[k] = hist.get(k, 0) + 1
         key = json.dumps({x: y for x, y in c.items() if x != "id"}, sort_keys=True, ensure_ascii=False)
+        if k == "hist":
+            hk = "%s %s" % (c["fn"], c["cfg"])
+            if not hist_oracle(run, c, obs[c["id"]]):
+                skipped += 1
+                continue
+            hcov["by_function"][hk] = hcov["by_function"].get(hk, 0) + 1
+            hcov["by_shape"][c["shape"]] = hcov["by_shape"].get(c["shape"], 0) + 1
+            hcov["by_length"][str(len(c["docs"]))] = hcov["by_length"].get(str(len(c["docs"])), 0) + 1
+            if (obs[c["id"]].get("h") or {}).get("st") != "ok":
+                hcov["history_is_an_error"] += 1
+            if key not in seen:
+                seen.add(key)
+                dist += 1
+            code = results.get(c["id"])
+            if code is not None:
+                hcov["also_compared_with_the_model"] += 1
+            if code in (None, 0, 3):
+                continue
+            rec = {"case": {x: y for x, y in c.items() if x != "id"}, "program": hist_src(c), "observed": obs[c["id"]].get("h"),
+                   "oracle": "a result of the history differs from Codec.history json_encoder (Sys/Codec.v, Sys/Json.v)", "model_code": code}
+            ysig = [yaml_text_sig({"codec": c["cls"], "doc": d}) for d in c["docs"]]
+            if code in (1, 2) and any(ysig):
+                run.classify_failure([y for y in ysig if y][0], rec)
+            elif code == 1:
+                run.classify_failure(None, rec)
+            elif code == 2:
+                noted += 1
+            elif code in SIGS:
+                run.classify_failure(SIGS[code], rec)
+            else:
+                run.classify_failure("unknown-code-%s" % code, rec)
+            continue
         checked, nt = impl_oracle(run, c, obs[c["id"]])
         code = results.get(c["id"], "impl" if checked else "skip")
         if code == "skip" and k == "csv" and csv_ok_py(c["m"]) and c["m"] and obs[c["id"]].get("b") is not None:
@@ -1104,7 +1476,7 @@ def main(tier, seed, replay=None):
                 "also evaluated by the Coq model (vm_compute) and classified there; floats outside the model, Unicode CSV and mask(set n) "
                 "use an implementation-side round-trip oracle; distinct by case content; non-trivial = composite input with at least one member",
         "samples": [json.dumps({x: y for x, y in cases[i].items() if x != "id"}, ensure_ascii=False)[:200] for i in range(0, len(cases), max(1, len(cases) // 8))][:8],
-        "kind_histogram": hist, "exhaustive": False,
+        "kind_histogram": hist, "exhaustive": False, "histories": hcov,
     })
     run.assumptions = ["encoding/json, yaml.v3 and encoding/csv text layers: json/yaml are outside the model (documents are compared after parsing), "
                        "encoding/csv Writer/Reader are transcribed in Sys/Csv.v and exercised by this run",
